@@ -388,6 +388,12 @@ impl DistinguishedName {
 				_ => return Err(Error::CouldNotParseCertificate),
 			};
 
+			// `DistinguishedName` holds one value per attribute type. A name that repeats a
+			// type (e.g. `DC=com, DC=example`) can't be represented: refuse it rather than
+			// silently dropping attributes, which would yield a different name.
+			if dn.get(&dn_type).is_some() {
+				return Err(Error::CouldNotParseCertificate);
+			}
 			dn.push(dn_type, dn_value);
 		}
 		Ok(dn)
